@@ -763,6 +763,9 @@ _define = re.compile(r'^define\s')
 _label = re.compile(r'^([-\w.$]+|"[^"]*"):')
 
 
+_PRIVATE_NAMES = re.compile(r'@((?:vtable|anon|switch\.table|str|__unnamed_|\.str|\.L)[\w.]*)(?![\w.$])')
+
+
 class Module:
     """all .ll files of one build, linked by symbol name"""
 
@@ -777,7 +780,11 @@ class Module:
     def load(self, path):
         self.files.append(path)
         with open(path) as f:
-            lines = f.read().split('\n')
+            text = f.read()
+        # module-private symbols with generic names (vtable.N, anon.*, switch.table.*, ...) collide across crates: scope them
+        fi = len(self.files)
+        text = _PRIVATE_NAMES.sub(lambda m: '@%s$m%d' % (m.group(1), fi), text)
+        lines = text.split('\n')
         i = 0
         n = len(lines)
         types = self.types
